@@ -22,7 +22,7 @@ func init() {
 		Explanation: "Introspection gate and attribute provenance: (gate) in every materialised executor each call of introspection.WrapSchema/WrapTypeFromDef/WrapTypeFromType, and each read of the embedded SDL `sources` outside " +
 			"package initialisation (federation _service), is edge-dominated by DisableIntrospection == false; introspection's wrapper types have only unexported fields, so no other code can fabricate a description; " +
 			"(flag-writers) OperationContext.DisableIntrospection is stored only by the executor (constant true) and by extension.Introspection (constant false); (own-attributes) in every composite literal of " +
-			"introspection.Field/InputValue/EnumValue/Directive all schema-node operands are the very node the element's Name is read from, and sibling literals of one wrapper type set the same keys.",
+			"introspection.Field/InputValue/EnumValue/Directive all schema-node operands are the very node the element's Name is read from, and sibling literals of one wrapper type set the same keys; (deprecated-iff-directive) EnumValue/Field/InputValue.IsDeprecated is exactly the presence of the element's own deprecation directive (a bare @deprecated without reason included); (default-only-absent) the default-value renderer returns nil only for an absent default.",
 		NotDecided:  "that the introspection result rebuilds the schema exactly (value-level: defaults' text, ordering, possible-type relations)",
 		Assumptions: []string{"user resolvers do not expose the schema through their own fields"},
 	})
@@ -105,6 +105,7 @@ func runC16(c *Ctx) {
 
 	c16OwnAttributes(c)
 	c16OptionalOnlyWhenAbsent(c)
+	c16DeprecatedIffDirective(c)
 }
 
 // c16OptionalOnlyWhenAbsent: the helper that renders a default value returns "absent" (nil) only when the schema node has no default.
@@ -292,4 +293,147 @@ func c16OwnAttributes(c *Ctx) {
 				"this "+t+" literal does not set "+strings.Join(missing, ",")+" although sibling literals of the same wrapper do: the attribute is silently dropped for this kind of element")
 		}
 	}
+}
+
+// c16DeprecatedIffDirective: an element's isDeprecated is the presence of its own @deprecated directive — nothing else (a bare
+// @deprecated without a reason is still deprecated).  In EnumValue/Field/InputValue.IsDeprecated every returned value is the
+// comparison `recv.deprecation != nil`, or a constant agreeing with such a test on the edge it is returned on, or `h() != nil`
+// for a method h of the same receiver that returns nil exactly on the deprecation == nil edges.
+func c16DeprecatedIffDirective(c *Ctx) {
+	c.R.Rule("deprecated-iff-directive", "introspection.{EnumValue,Field,InputValue}.IsDeprecated is true exactly when the element's own deprecation directive is present (independent of whether a reason was given)", 3)
+	isOwnDeprecation := func(v ssa.Value, recv ssa.Value) bool {
+		fa, ok := loadAddr(v).(*ssa.FieldAddr)
+		return ok && fieldNameOf(fa) == "deprecation" && an.SameVar(fa.X, recv)
+	}
+	// nilness fact about the receiver's deprecation field at an instruction / on an edge
+	depFact := func(fs []an.Fact, recv ssa.Value) (present, known bool) {
+		for _, f := range fs {
+			if empty, k := an.EmptinessFact(f, func(x ssa.Value) bool { return isOwnDeprecation(x, recv) }); k {
+				return !empty, true
+			}
+		}
+		return false, false
+	}
+	for _, typ := range []string{"EnumValue", "Field", "InputValue"} {
+		fn := c.fn(pkgIntrosp, "*"+typ+".IsDeprecated")
+		if fn == nil {
+			continue
+		}
+		recv := ssa.Value(fn.Params[0])
+		bad := ""
+		n := 0
+		var judge func(v ssa.Value, facts []an.Fact, depth int) string
+		judge = func(v ssa.Value, facts []an.Fact, depth int) string {
+			switch x := v.(type) {
+			case *ssa.Const:
+				if x.Value == nil {
+					return "returns a non-boolean constant"
+				}
+				present, known := depFact(facts, recv)
+				want := x.Value.String() == "true"
+				if !known {
+					return "returns the constant " + x.Value.String() + " on a path that does not depend on the element's deprecation directive"
+				}
+				if present != want {
+					return "returns " + x.Value.String() + " on the edge where the deprecation directive is " + map[bool]string{true: "present", false: "absent"}[present]
+				}
+				return ""
+			case *ssa.BinOp:
+				if x.Op == token.NEQ || x.Op == token.EQL {
+					for _, pr := range [][2]ssa.Value{{x.X, x.Y}, {x.Y, x.X}} {
+						if !an.IsNilConst(pr[1]) {
+							continue
+						}
+						if isOwnDeprecation(pr[0], recv) {
+							if x.Op == token.NEQ {
+								return ""
+							}
+							return "returns deprecation == nil (inverted)"
+						}
+						// h() != nil for a method of the same receiver that is nil exactly when the directive is absent
+						if call, ok := pr[0].(*ssa.Call); ok && x.Op == token.NEQ && call.Call.StaticCallee() != nil && len(call.Call.Args) > 0 && an.SameVar(call.Call.Args[0], recv) {
+							h := call.Call.StaticCallee()
+							if depth < 2 && nilIffNoDeprecation(h) {
+								return ""
+							}
+							return "is derived from " + shortFn(h) + "() != nil, which is also nil for an element that carries a bare @deprecated (no reason argument): such an element is reported as not deprecated"
+						}
+					}
+				}
+			case *ssa.UnOp:
+				if x.Op == token.NOT {
+					if r := judge(x.X, facts, depth+1); r == "" {
+						return "returns the negation of the presence test"
+					}
+				}
+			}
+			return "returns a value that is not the presence test of the element's own deprecation directive"
+		}
+		for _, r := range an.Returns(fn) {
+			if fn.Recover != nil && r.Block() == fn.Recover {
+				continue
+			}
+			for _, ve := range returnValueEdges(r, 0) {
+				n++
+				facts := an.Facts(r)
+				if ve.from != nil {
+					facts = nil
+					for _, g := range an.BlockGuards(ve.from) {
+						facts = append(facts, an.FactOf(g))
+					}
+					if ve.edgeIf != nil {
+						facts = append(facts, an.FactOf(*ve.edgeIf))
+					}
+				}
+				if w := judge(an.Strip(ve.val), facts, 0); w != "" {
+					bad = w
+				}
+			}
+		}
+		c.R.Check(bad == "" && n > 0, typ+".IsDeprecated", c.pos(fn.Pos()), "deprecation != nil", typ+".IsDeprecated "+bad+": introspection no longer shows this element's own deprecation status")
+	}
+}
+
+// nilIffNoDeprecation: method h returns nil exactly on edges where the receiver's deprecation field is nil.
+func nilIffNoDeprecation(h *ssa.Function) bool {
+	if len(h.Blocks) == 0 || len(h.Params) == 0 {
+		return false
+	}
+	recv := ssa.Value(h.Params[0])
+	n := 0
+	for _, r := range an.Returns(h) {
+		if h.Recover != nil && r.Block() == h.Recover {
+			continue
+		}
+		if len(r.Results) != 1 {
+			return false
+		}
+		n++
+		present, known := false, false
+		for _, f := range an.Facts(r) {
+			if empty, k := an.EmptinessFact(f, func(x ssa.Value) bool {
+				fa, ok := loadAddr(x).(*ssa.FieldAddr)
+				return ok && fieldNameOf(fa) == "deprecation" && an.SameVar(fa.X, recv)
+			}); k {
+				present, known = !empty, true
+			}
+		}
+		if !known {
+			return false
+		}
+		v := an.ReturnedValue(r, 0)
+		isNil := an.IsNilConst(v)
+		nonNil := false
+		switch v.(type) {
+		case *ssa.Alloc, *ssa.FieldAddr, *ssa.IndexAddr:
+			nonNil = true
+		}
+		if !nonNil && nonNilAt(r, v) {
+			nonNil = true
+		}
+		if present && !nonNil || !present && !isNil {
+			return false
+		}
+	}
+	return n > 0
 }
